@@ -283,3 +283,162 @@ func chainBindProgram(n int, consumers int, perm []int, wrap int) *ir.Program {
 	}
 	return &ir.Program{Root: p, Injectors: []*ir.Injector{inj}}
 }
+
+// bothFormsProgram: one struct provider whose value form S and pointer form *S are both needed by one injector,
+// directly (consumers of S and of *S) and through an interface bound to one of the forms. which is a bit mask over
+// [consumer of S, consumer of *S, consumer of the interface]; perm orders the result provider's parameters;
+// bindPtr says which form the interface is bound to.
+func bothFormsProgram(which int, perm []int, bindPtr bool) *ir.Program {
+	b := ir.NewBuilder()
+	p := b.Root
+	x := b.Leaf(p, "X")
+	i := b.Iface(p, "I")
+	s := b.Agg(p, "S", &ir.Field{Name: "F", T: x})
+	s.Impls = []*ir.Type{i} // value receiver: both S and *S implement I
+	bound := s
+	if bindPtr {
+		bound = ir.Ptr(s)
+	}
+	items := []*ir.Item{ir.StructItem(s, "*"), ir.FuncItem(&ir.Func{Pkg: p, Name: "PX", Out: x})}
+	deps := make([]*ir.Type, 3)
+	srcs := []*ir.Type{s, ir.Ptr(s), i}
+	for k := 0; k < 3; k++ {
+		if which&(1<<k) == 0 {
+			continue
+		}
+		a := b.Leaf(p, fmt.Sprintf("A%d", k))
+		items = append(items, ir.FuncItem(&ir.Func{Pkg: p, Name: fmt.Sprintf("PA%d", k), Params: []*ir.Type{srcs[k]}, Out: a}))
+		deps[k] = a
+	}
+	if which&4 != 0 {
+		items = append(items, ir.BindItem(i, bound))
+	}
+	var params []*ir.Type
+	for _, k := range perm {
+		if deps[k] != nil {
+			params = append(params, deps[k])
+		}
+	}
+	r := b.Leaf(p, "R")
+	items = append(items, ir.FuncItem(&ir.Func{Pkg: p, Name: "PR", Params: params, Out: r}))
+	return &ir.Program{Root: p, Injectors: []*ir.Injector{{Name: "Init", Out: r, Items: items}}}
+}
+
+func bothFormsSpecs(prefix string) []specCase {
+	var out []specCase
+	permutations(3, func(perm []int) {
+		for which := 3; which < 8; which++ {
+			if which == 4 {
+				continue
+			}
+			for bp := 0; bp < 2; bp++ {
+				perm, which, bp := perm, which, bp
+				g := &GraphSpec{}
+				g.custom = func(b *ir.Builder) *ir.Program { return bothFormsProgram(which, perm, bp == 1) }
+				out = append(out, specCase{fmt.Sprintf("%s/both-forms/which=%03b/perm=%v/bindptr=%d", prefix, which, perm, bp), g})
+			}
+		}
+	})
+	return out
+}
+
+// injectorPairProgram: two injectors of one package with different result shapes, each over its own short chain of
+// providers whose shapes its result list allows. sa/sb: bit 0 error, bit 1 cleanup (shape of the injector and of its
+// providers). Nothing of the first injector (cleanup variables, error variable, local names) may show in the second.
+func injectorPairProgram(sa, sb int, swap bool) *ir.Program {
+	b := ir.NewBuilder()
+	p := b.Root
+	mk := func(tag string, s int) *ir.Injector {
+		x := b.Leaf(p, "X"+tag)
+		y := b.Leaf(p, "Y"+tag)
+		r := b.Leaf(p, "R"+tag)
+		e, c := s&1 != 0, s&2 != 0
+		return &ir.Injector{Name: "Init" + tag, Out: ir.Ptr(r), Err: e, Cleanup: c, Items: []*ir.Item{
+			ir.FuncItem(&ir.Func{Pkg: p, Name: "PX" + tag, Out: x, Err: e, Cleanup: c}),
+			ir.FuncItem(&ir.Func{Pkg: p, Name: "PY" + tag, Params: []*ir.Type{x}, Out: y, Cleanup: c}),
+			ir.FuncItem(&ir.Func{Pkg: p, Name: "PR" + tag, Params: []*ir.Type{x, y}, Out: ir.Ptr(r), Err: e}),
+		}}
+	}
+	injs := []*ir.Injector{mk("A", sa), mk("B", sb)}
+	if swap {
+		injs[0], injs[1] = injs[1], injs[0]
+	}
+	return &ir.Program{Root: p, Injectors: injs, Hist: 2}
+}
+
+func injectorPairSpecs(prefix string) []specCase {
+	var out []specCase
+	for sa := 0; sa < 4; sa++ {
+		for sb := 0; sb < 4; sb++ {
+			if sa == sb {
+				continue
+			}
+			sa, sb := sa, sb
+			g := &GraphSpec{}
+			g.custom = func(b *ir.Builder) *ir.Program { return injectorPairProgram(sa, sb, false) }
+			out = append(out, specCase{fmt.Sprintf("%s/injector-pair/first=%d/second=%d", prefix, sa, sb), g})
+		}
+	}
+	return out
+}
+
+// namedResultsSpecs: injectors declared with named results, the names chosen among those wire invents for its own
+// locals (cleanup, cleanup2, err, err2, and the name it derives for the result).
+func namedResultsSpecs(prefix string) []specCase {
+	var out []specCase
+	namings := [][]string{{"a", "cleanup", "err"}, {"res", "cleanup2", "err2"}, {"r", "c", "e"}, {"err", "err2", "cleanup"}, {"cleanup", "fn", "failure"}, {"y", "x", "pR"}}
+	for ni, nm := range namings {
+		for shape := 1; shape < 4; shape++ {
+			nm, shape := nm, shape
+			g := &GraphSpec{}
+			g.custom = func(b *ir.Builder) *ir.Program {
+				prog := injectorPairProgram(shape, 0, false)
+				inj := prog.Injectors[0]
+				prog.Injectors = prog.Injectors[:1]
+				names := []string{nm[0]}
+				if inj.Cleanup {
+					names = append(names, nm[1])
+				}
+				if inj.Err {
+					names = append(names, nm[2])
+				}
+				inj.ResultNames = names
+				return prog
+			}
+			out = append(out, specCase{fmt.Sprintf("%s/named-results/naming=%d/shape=%d", prefix, ni, shape), g})
+		}
+	}
+	return out
+}
+
+// longChainProgram: a chain of n providers, every one returning a cleanup (and, if errs, an error): beyond any
+// threshold on the number of cleanup variables, locals or steps.
+func longChainProgram(n int, errs bool) *ir.Program {
+	b := ir.NewBuilder()
+	p := b.Root
+	var prev *ir.Type
+	var items []*ir.Item
+	for i := 0; i < n; i++ {
+		t := b.Leaf(p, fmt.Sprintf("T%d", i))
+		fn := &ir.Func{Pkg: p, Name: fmt.Sprintf("P%d", i), Out: t, Cleanup: true, Err: errs && i%3 == 0}
+		if prev != nil {
+			fn.Params = []*ir.Type{prev}
+		}
+		items = append(items, ir.FuncItem(fn))
+		prev = t
+	}
+	return &ir.Program{Root: p, Injectors: []*ir.Injector{{Name: "Init", Out: prev, Cleanup: true, Err: errs, Items: items}}}
+}
+
+func longChainSpecs(prefix string) []specCase {
+	var out []specCase
+	for _, n := range []int{17, 18, 34} {
+		for e := 0; e < 2; e++ {
+			n, e := n, e
+			g := &GraphSpec{}
+			g.custom = func(b *ir.Builder) *ir.Program { return longChainProgram(n, e == 1) }
+			out = append(out, specCase{fmt.Sprintf("%s/long-chain/n=%d/errs=%d", prefix, n, e), g})
+		}
+	}
+	return out
+}
